@@ -274,20 +274,23 @@ Definition mix_from (O : oracles) (st : store) (r : nat) (others : list inlet) (
   do self <- sget st r;
   match streams with
   | [] => Ok (upd st r (empty self))                               (* self.empty() *)
-  | [i] =>                                                         (* self.copy_like(streams[0]) *)
+  | [i] =>
       do o <- sget st i;
-      do s' <- copy_like self o (r =? i)%nat;
-      Ok (upd st r s')
+      do s1 <- copy_like self o (r =? i)%nat;                      (* self.copy_like(streams[0]) *)
+      if qzerob Q then Ok (upd st r s1)
+      else match setH O s1 (getH O s1 + Q) with                    (* if Q: self.H += Q *)
+           | (s', None) => Ok (upd st r s')
+           | (_, Some e) => Err e
+           end
   | _ =>
       do ins <- sget_all st streams;
+      let H := sum_H O ins Q in                                    (* H = sum([i.H for i in streams], Q) *)
       do P <- minP ins;
       let st1 := upd st r (set_P self P) in                        (* self.P = P = min([i.P for i in streams]) *)
       do self1 <- sget st1 r;
       do ins1 <- sget_all st1 streams;
       do self2 <- imol_mix self1 ins1;                             (* self._imol.mix_from([i._imol for i in streams]) *)
       let st2 := upd st1 r self2 in
-      do ins2 <- sget_all st2 streams;
-      let H := sum_H O ins2 Q in                                   (* H = sum([i.H for i in streams], Q) *)
       match setH O self2 H with                                    (* try: self.H = H *)
       | (s', None) => Ok (upd st2 r s')
       | (s3, Some _) =>                                            (* except: *)
@@ -388,27 +391,6 @@ Definition sres_eqb (a : sres) (b : stream) (e : option err) : bool :=
 Definition it_eqb (a : res (Q * cn_cache)) (b : res (Q * cn_cache)) : bool :=
   res_eqb (fun x y => qapproxb (fst x) (fst y) && (fst (snd x) =? fst (snd y))%nat
                       && opt_eqb qeqb (snd (snd x)) (snd (snd y))) a b.
-
-(* the S setter as it stands on the unrepaired tree: the fallback assigns the solver's result to self.S *)
-Fixpoint setS_v0 (fuel : nat) (O : oracles) (s : stream) (x : Q) : sres :=
-  if qzerob x && isempty s then (s, None) else
-  if multi s then solve_into (solveS O) s (pm s) x else
-  match solveS O (pm s) x (sT s) (sP s) with
-  | Ok T' => (set_T s T', None)
-  | Err e =>
-      match flip (phase1 s) with
-      | None => (s, Some e)
-      | Some p' =>
-          let s1 := set_phase1 s p' in
-          match solveS O (pm s1) x (sT s1) (sP s1) with
-          | Err e2 => (s1, Some e2)
-          | Ok v => match fuel with
-                    | O => (s1, Some ERuntime)
-                    | S f => setS_v0 f O s1 v
-                    end
-          end
-      end
-  end.
 
 (* what the case files evaluate *)
 Definition Hs_ok (O : oracles) (st : store) (Hs : vec) : bool := vapproxb (map (getH O) st) Hs.
